@@ -166,11 +166,9 @@ func (x *Exec) lockOp(st *State, m Val, delta int, cc *ssa.CallCommon, pos token
 		x.emit(st, "ghost", "lock.notheld@"+x.operandText(cc.Args[0]), eq(held, "0"), []string{"C05", "C18"}, "a mutex is not acquired while already held by the same call (self-deadlock)", pos)
 		// lock order: every lock held now must be allowed before m (rank strictly smaller)
 		st.setG("locks", store(cur, m.T, app("+", held, "1")))
-		st.setG("lockdepth", app("+", st.G("lockdepth"), "1"))
 	} else {
 		x.emit(st, "ghost", "unlock.held@"+x.operandText(cc.Args[0]), app(">", held, "0"), []string{"C05", "C18"}, "a mutex is released only while held", pos)
 		st.setG("locks", store(cur, m.T, app("-", held, "1")))
-		st.setG("lockdepth", app("-", st.G("lockdepth"), "1"))
 	}
 	return Val{K: VNone}
 }
